@@ -34,6 +34,8 @@ struct FnInfo {
 struct Ctx {
     structs: HashMap<String, Vec<(String, Ty)>>,
     fns: HashMap<(String, String), FnInfo>,
+    // #[derive(Default)]: the Gallina value of <Ty>::default()
+    defaults: HashMap<String, String>,
     tmp: usize,
 }
 
@@ -69,6 +71,9 @@ fn conv_ty(t: &Type, owner: &str) -> Ty {
                 "I" => Ty::Named("AsIndex".into()),
                 // a generic parameter bounded by Into<Shape> (`S`): the shape it converts into
                 "S" => Ty::Named("Shape".into()),
+                // an element / the initializer closure of the constructors
+                "T" => Ty::Named("Elem".into()),
+                "F" => Ty::Named("Init".into()),
                 // NonZero<usize> is its value (NonZero::new_unchecked is not in the translated fragment)
                 "NonZero" => Ty::Usize,
                 // the item types of the two mutable vector iterators
@@ -86,6 +91,9 @@ fn coq_ty(t: &Ty) -> String {
         Ty::Usize | Ty::Isize => "Z".into(),
         Ty::Bool => "bool".into(),
         Ty::Unit => "unit".into(),
+        Ty::Named(n) if n == "Elem" => "A".into(),
+        Ty::Named(n) if n == "Init" => "(GIndex -> A)".into(),
+        Ty::Named(n) if n == "VecT" => "(list A)".into(),
         Ty::Named(n) => format!("G{}", n),
         Ty::Opt(a) => format!("(option {})", coq_ty(a)),
         Ty::Res(a) => format!("(result {})", coq_ty(a)),
@@ -105,6 +113,8 @@ struct Tr<'a> {
     // list), a pointer into the buffer is an element index, and the list is threaded through the pointer operations
     data_mode: bool,
     has_data: bool,
+    // constructors (construct.rs): no receiver; the result is a model matrix built from an element list
+    ctor_mode: bool,
     // `-> &mut Self` in data mode: the function's value is the new matrix
     ret_self: bool,
     // `let mut` locals in scope (data mode): they are threaded through `for` and `loop` bodies together with the element list
@@ -145,6 +155,11 @@ fn data_fn(owner: &str, name: &str) -> bool {
 }
 
 // functions that (transitively) contain the cycle-following `loop` of transpose: they take the element size and the fuel
+// construct.rs: the constructors (no receiver; element lists are built with the Vec primitives of Gen/Prelude.v)
+fn ctor_fn(owner: &str, name: &str) -> bool {
+    owner == "Matrix" && matches!(name, "new" | "with_capacity" | "with_default" | "with_value" | "with_initializer")
+}
+
 fn fuel_fn(name: &str) -> bool {
     matches!(name, "transpose" | "switch_order" | "set_order")
 }
@@ -263,6 +278,17 @@ impl<'a> Tr<'a> {
                 if p == "NonZero::new_unchecked" {
                     return Ty::Usize;
                 }
+                if p == "Vec::new" || p == "Vec::with_capacity" {
+                    return Ty::Named("VecT".into());
+                }
+                if let Some(t) = p.strip_suffix("::default") {
+                    if self.cx.defaults.contains_key(t) {
+                        return Ty::Named(t.to_string());
+                    }
+                }
+                if env.get(&p) == Some(&Ty::Named("Init".into())) {
+                    return Ty::Named("Elem".into());
+                }
                 if p == "Some" {
                     return Ty::Opt(Box::new(c.args.first().map_or(Ty::Unknown, |a| self.ty_of(a, env))));
                 }
@@ -295,6 +321,7 @@ impl<'a> Tr<'a> {
                 Ty::Named(if n == "Self" { self.owner.clone() } else { n })
             }
             Expr::Lit(_) => Ty::Usize,
+            Expr::Macro(m) if tstr(&m.mac.path) == "vec" => Ty::Named("VecT".into()),
             _ => Ty::Unknown,
         }
     }
@@ -318,6 +345,9 @@ impl<'a> Tr<'a> {
     }
     // the value the function finally returns
     fn finish(&self, v: String) -> String {
+        if self.ctor_mode {
+            return format!("Val {}", v);
+        }
         if self.data_mode && !self.self_mut {
             return format!("Val {}", v);
         }
@@ -391,6 +421,34 @@ impl<'a> Tr<'a> {
                         env.insert(name.clone(), Ty::Named("DataPtr".into()));
                         self.has_data = true;
                         return format!("let data := m_data self in\n  let {} := 0 in\n  {}", name, self.block(rest, env, k));
+                    }
+                }
+            }
+            if self.ctor_mode {
+                // let [mut] data = <vector expression>;   the element list under construction
+                if let Stmt::Local(l) = s {
+                    if let (Pat::Ident(pi), Some(init)) = (&l.pat, &l.init) {
+                        if pi.ident == "data" {
+                            return self.expr(&init.expr, env, &mut |me, v, env| {
+                                env.insert("data".into(), Ty::Named("VecT".into()));
+                                me.has_data = true;
+                                format!("let data := {} in\n  {}", v, me.block(rest, env, k))
+                            });
+                        }
+                    }
+                }
+                // data.resize_with(n, T::default);   data.push(e);
+                if let Stmt::Expr(Expr::MethodCall(mc), Some(_)) = s {
+                    if tstr(&mc.receiver) == "data" && self.has_data {
+                        let name = mc.method.to_string();
+                        let args: Vec<&Expr> = mc.args.iter().collect();
+                        if name == "resize_with" && args.len() == 2 && tstr(args[1]) == "T::default" {
+                            return self.expr(args[0], env, &mut |me, n, env| format!("let data := vec_resize_with data {} dflt in\n  {}", n, me.block(rest, env, k)));
+                        }
+                        if name == "push" && args.len() == 1 {
+                            return self.expr(args[0], env, &mut |me, e, env| format!("let data := vec_push data {} in\n  {}", e, me.block(rest, env, k)));
+                        }
+                        return format!("(*UNSUPPORTED Vec method {}*)", name);
                     }
                 }
             }
@@ -775,6 +833,9 @@ impl<'a> Tr<'a> {
                         by_name.insert(n.as_str(), v);
                     }
                     let ordered: Vec<String> = decl.iter().map(|n| by_name.get(n.as_str()).map(|s| (*s).clone()).unwrap_or("(*UNSUPPORTED missing field*)".into())).collect();
+                    if me.ctor_mode && name == "Matrix" {
+                        return k(me, format!("(mkMatrix {})", ordered.join(" ")), env);
+                    }
                     k(me, format!("(Build_{} {})", name, ordered.join(" ")), env)
                 })
             }
@@ -889,10 +950,26 @@ impl<'a> Tr<'a> {
                 if p == "NonNull::dangling" {
                     return k(self, "al".into(), env);
                 }
+                if p == "Vec::new" && c.args.is_empty() {
+                    return k(self, "vec_new".into(), env);
+                }
+                if let Some(t) = p.strip_suffix("::default") {
+                    if c.args.is_empty() {
+                        if let Some(v) = self.cx.defaults.get(t).cloned() {
+                            return k(self, v, env);
+                        }
+                    }
+                }
+                if env.get(&p) == Some(&Ty::Named("Init".into())) {
+                    // the initializer closure: caller code, a function of the index it is given
+                    let args: Vec<&Expr> = c.args.iter().collect();
+                    return self.exprs(&args, env, &mut |me, vs, env| k(me, format!("({} {})", p, vs.join(" ")), env));
+                }
                 let args: Vec<&Expr> = c.args.iter().collect();
                 self.exprs(&args, env, &mut |me, vs, env| match p.as_str() {
                     "Ok" | "Err" | "Some" => k(me, format!("({} {})", p, vs.join(" ")), env),
                     "without_provenance_mut" => k(me, vs[0].clone(), env),
+                    "Vec::with_capacity" => k(me, format!("(vec_with_capacity {})", vs[0]), env),
                     "NonZero::new_unchecked" => {
                         let t = me.fresh("z");
                         format!("let* {} := nz_new_unchecked {} in\n  {}", t, vs[0], k(me, t.clone(), env))
@@ -1023,6 +1100,15 @@ impl<'a> Tr<'a> {
                     _ => format!("(*UNSUPPORTED method {}.{}*)", coq_ty(&rt), name),
                 })
             }
+            Expr::Macro(m) if self.ctor_mode && tstr(&m.mac.path) == "vec" => {
+                let toks = m.mac.tokens.to_string();
+                let parts: Vec<&str> = toks.split(';').collect();
+                if parts.len() != 2 {
+                    return "(*UNSUPPORTED vec! form*)".into();
+                }
+                let (Ok(v), Ok(n)) = (syn::parse_str::<Expr>(parts[0]), syn::parse_str::<Expr>(parts[1])) else { return "(*UNSUPPORTED vec! arguments*)".into() };
+                self.exprs(&[&v, &n], env, &mut |me, vs, env| k(me, format!("(zrepeat {} {})", vs[0], vs[1]), env))
+            }
             _ => format!("(*UNSUPPORTED expression {}*)", tstr(e)),
         }
     }
@@ -1098,6 +1184,12 @@ const TARGETS: &[(&str, &str)] = &[
     ("Matrix", "switch_order_without_rearrangement"),
     ("Matrix", "set_order"),
     ("Matrix", "set_order_without_rearrangement"),
+    // construct.rs: the constructors
+    ("Matrix", "new"),
+    ("Matrix", "with_capacity"),
+    ("Matrix", "with_default"),
+    ("Matrix", "with_value"),
+    ("Matrix", "with_initializer"),
     // iter.rs: the immutable row / column views (data mode)
     ("Matrix", "iter_nth_major_axis_vector_unchecked"),
     ("Matrix", "iter_nth_minor_axis_vector_unchecked"),
@@ -1135,6 +1227,23 @@ fn main() {
         let file = parse_file(&src).unwrap_or_else(|e| panic!("{p}: {e}"));
         for it in file.items {
             match it {
+                Item::Enum(en) => {
+                    // #[derive(Default)] with a #[default] variant
+                    for v in &en.variants {
+                        if v.attrs.iter().any(|a| tstr(a).contains("default")) && v.fields.is_empty() {
+                            cx.defaults.insert(en.ident.to_string(), v.ident.to_string());
+                        }
+                    }
+                }
+                Item::Struct(s) if s.attrs.iter().any(|a| tstr(a).contains("derive") && tstr(a).contains("Default")) && !s.fields.is_empty()
+                    && s.fields.iter().all(|f| tstr(&f.ty) == "usize") =>
+                {
+                    // #[derive(Default)] on a struct of usize fields: all zero
+                    let zeros: Vec<&str> = s.fields.iter().map(|_| "0").collect();
+                    cx.defaults.insert(s.ident.to_string(), format!("(Build_{} {})", s.ident, zeros.join(" ")));
+                    let fs = s.fields.iter().filter_map(|f| f.ident.as_ref().map(|i| (i.to_string(), conv_ty(&f.ty, &s.ident.to_string())))).collect();
+                    cx.structs.insert(s.ident.to_string(), fs);
+                }
                 Item::Struct(s) => {
                     let fs = s.fields.iter().filter_map(|f| f.ident.as_ref().map(|i| (i.to_string(), conv_ty(&f.ty, &s.ident.to_string())))).collect();
                     cx.structs.insert(s.ident.to_string(), fs);
@@ -1190,7 +1299,8 @@ fn main() {
             ReturnType::Type(_, _) if *o == "Matrix" && ptr_fn(o, n) => Ty::Named("IterVectorsMut".into()),
             ReturnType::Type(_, t) => conv_ty(t, o),
         };
-        let dm = data_fn(o, n);
+        let cm = ctor_fn(o, n);
+        let dm = data_fn(o, n) || cm;
         let ret_self = dm && tstr(&sig.output) == "->&mutSelf";
         let mut tr = Tr {
             cx: &mut cx,
@@ -1199,6 +1309,7 @@ fn main() {
             uses_es: uses_es0,
             data_mode: dm,
             has_data: false,
+            ctor_mode: cm,
             ret_self,
             mut_locals: vec![],
             aliases: HashMap::new(),
@@ -1214,6 +1325,17 @@ fn main() {
             ""
         };
         let rty = if self_mut && tstr(&sig.output) != "->&mutSelf" { format!("(G{} * {})", o, coq_ty(&ret)) } else { coq_ty(&ret) };
+        if cm {
+            let uses_dflt = tstr(&block).contains("T::default");
+            let rty = match &ret {
+                Ty::Res(_) => "(result (matrix A))".to_string(),
+                _ => "(matrix A)".to_string(),
+            };
+            let es = if uses_es0 || body.contains(" es ") { "(es : Z) " } else { "" };
+            let dflt = if uses_dflt { "(dflt : A) " } else { "" };
+            println!("Definition G_{}_{} {{A : Type}} (md : cfg) {}{}{} : res {} :=\n  {}.\n", o, n, es, dflt, params.join(" "), rty, body);
+            continue;
+        }
         if dm {
             let ps: Vec<String> = params.iter().map(|p| if p.starts_with("(self") { "(self : matrix A)".to_string() } else { p.clone() }).collect();
             let rty = if ret_self {
